@@ -8,7 +8,7 @@ S=/tmp/ev/$name; rm -rf $S; mkdir -p $S
 git -C /repo worktree add -q --detach $S/repo HEAD || exit 2
 ( cd $S/repo && git apply $patch ) || { echo "$name: patch does not apply"; git -C /repo worktree remove --force $S/repo; exit 2; }
 cp /repo/Cargo.lock $S/repo/ 2>/dev/null
-rsync -a --exclude .git --exclude work --exclude replays /verif/ $S/verif/
+rsync -a --exclude .git --exclude work --exclude replays --exclude harness/target /verif/ $S/verif/   # cold harness build: copying a target dir that a concurrent ./check is writing gives spurious build failures
 mkdir -p $S/verif/work $S/verif/replays
 out=$(unshare -m bash -c "mount --bind $S/repo /repo && mount --bind $S/verif /verif && cd /verif && for p in ${P//,/ }; do ./check \$p $* 2>&1; done" | grep -E "tier=|VIOLATION|BROKEN" | cut -c1-300)
 mkdir -p /verif/work/evalmut; { echo "== $name ($P) $(date -u +%FT%TZ)"; echo "$out"; } >> /verif/work/evalmut/log.txt
